@@ -6,6 +6,8 @@ REGISTRY = {
     'C04': 'harness.fitkernel',
     'C05': 'harness.c05',
     'C11': 'harness.fitkernel',
+    'C19': 'harness.c19',
+    'C20': 'harness.c20',
 }
 
 if __name__ == '__main__':
